@@ -8,8 +8,7 @@
 mod proto;
 mod rng;
 mod gen;
-mod c18;
-mod c19;
+include!("props_gen.rs");
 
 use proto::Toks;
 use rng::Rng;
@@ -23,11 +22,7 @@ fn eval(input: &str) -> String {
             Ok(o) => o,
             Err(e) => return format!("harness-error {}", e),
         };
-        let res = match &op[..3.min(op.len())] {
-            "C18" => c18::eval(op, &mut t),
-            "C19" => c19::eval(op, &mut t),
-            _ => Err(format!("unknown op {}", op)),
-        };
+        let res = eval_dispatch(op, &mut t);
         match res {
             Ok(s) => s,
             Err(e) => format!("harness-error {}", e.replace(' ', "_")),
@@ -40,11 +35,7 @@ fn eval(input: &str) -> String {
 }
 
 fn gen_case(prop: &str, rng: &mut Rng, index: u64) -> String {
-    match prop {
-        "C18" => c18::gen(rng, index),
-        "C19" => c19::gen(rng, index),
-        _ => panic!("no generator for {}", prop),
-    }
+    gen_dispatch(prop, rng, index)
 }
 
 fn main() {
